@@ -489,4 +489,11 @@ def r17_faults(ctx):
     ai.global_store.pop(KEY, None)
 
 
-RULES = [('R17-borrowed', r17_borrowed), ('R17-faults', r17_faults), ('R17-text-specs', r17_text_specs), ('R17-scoping', r17_scoping), ('R17-nested', r17_nested), ('R17.2', r17_2), ('R17.4', r17_4)]
+def r17_payload_reader(ctx):
+    """A text of any length comes back whole: read_bytes hands the decoder exactly the announced number of payload bytes, also
+    beyond any block size (shared with C09 R09.6)."""
+    from . import c09
+    ctx.borrow(c09.r09_6, 'R17.7')
+
+
+RULES = [('R17.7', r17_payload_reader), ('R17-borrowed', r17_borrowed), ('R17-faults', r17_faults), ('R17-text-specs', r17_text_specs), ('R17-scoping', r17_scoping), ('R17-nested', r17_nested), ('R17.2', r17_2), ('R17.4', r17_4)]
